@@ -105,11 +105,26 @@ class LocalEnv:
             return None
         return canon(n['init'], self, subst=subst)
 
+    _CONTAINERS = ('std::map<', 'std::set<', 'std::vector<', 'std::unordered_', 'std::list<', 'std::queue<', 'std::deque<', 'std::multimap<', 'std::multiset<')
+
     def definition(self, ref):
+        """the pure initialiser a local may be replaced by, or None: never for assigned locals, range-for loop variables
+        (their initialiser is the hidden iterator) and containers (they are accumulators, not values)."""
         d = ref.get('dloc')
         if d in self.assigned:
             return None
-        return self.defs.get(d)
+        init = self.defs.get(d)
+        if init is None:
+            return None
+        t = (self.types.get(d) or '').replace('const ', '')
+        if t.startswith(self._CONTAINERS):
+            return None
+        x = init
+        while isinstance(x, dict) and x.get('k') in ('UnaryOperator', 'CXXOperatorCallExpr') and x.get('op') == '*':
+            x = (x.get('c') or [None])[-1]
+        if isinstance(x, dict) and x.get('k') == 'DeclRefExpr' and str(x.get('ref', '')).startswith(('__begin', '__range', '__end')):
+            return None
+        return init
 
 
 def is_copy_ctor(n):
